@@ -47,7 +47,6 @@ Section Run.
 Variable F : fops.
 Variable bld : build.
 Variable P : program.
-Variable reenter : N -> state -> rres.
 Variable T : list (N * N).
 Variable names : list str.
 
@@ -69,8 +68,8 @@ Proof. rewrite bytes_app. cbn [bytes]. lia. Qed.
 
 Definition cap : nat := stack_size.
 Definition calls0 : list frame := [mkFrame 0 0 0 None].
-Notation steps' := (steps F bld P reenter cap calls0 (@nil obj) None (@nil (list tval))).
-Notation exec_err' := (exec_err F bld P reenter cap calls0 (@nil obj) None (@nil (list tval))).
+Notation steps' := (steps F bld P cap calls0 (@nil obj) None (@nil (list tval))).
+Notation exec_err' := (exec_err F bld P cap calls0 (@nil obj) None (@nil (list tval))).
 
 (* the reference globals (by name) and the VM's (by id, through T) *)
 Definition gread (gv : list (option value)) (n : str) : option value :=
@@ -138,7 +137,7 @@ Proof.
       destruct (ev gr e2) as [y|] eqn:Ey.
       * destruct (vm_binop F [] op x y Hop (ev_simple _ _ _ Hsimp Ex) (ev_simple _ _ _ Hsimp Ey)) as (f & Hf & Hv).
         rewrite <- !app_assoc in Si. pose proof (seg_instr _ _ _ Si) as Hc.
-        assert (X : exec1 F bld P reenter cap calls0 [] None []
+        assert (X : exec1 F bld P cap calls0 [] None []
                           (bytes (pre ++ code_expr T e1 ++ code_expr T e2), stk ++ [to_vm x; to_vm y], gv)
                           (bytes (pre ++ code_expr T e1 ++ code_expr T e2) + 1, stk ++ [to_vm (binval op x y)], gv)).
         { eapply ex_binop; eauto. lia. }
@@ -186,7 +185,7 @@ Proof.
     + rewrite bytes_snoc. change (spanN (IReadGlobalVar id)) with 5.
       apply steps_1. eapply ex_read_global; eauto; [|lia].
       destruct (nth_error gv (N.to_nat id)) as [[w|]|]; congruence.
-    + destruct (@ex_read_global_err F bld P reenter cap calls0 [] None [] (bytes pre) id stk gv Hc Hid) as [nm Herr].
+    + destruct (@ex_read_global_err F bld P cap calls0 [] None [] (bytes pre) id stk gv Hc Hid) as [nm Herr].
       { intros w Hw. rewrite Hw in Hr. discriminate. }
       exists 0%nat, (bytes pre, stk, gv), (Some nm). split; [cbn; lia|]. split; [constructor | auto].
 Qed.
@@ -285,7 +284,7 @@ Proof.
         unfold idT in *. destruct (nm_find (handle_of_bytes name) T) as [id|] eqn:Eid; [|congruence].
         assert (Hid : id < 4294967296) by (rewrite <- two32_eq; eapply T_lt; eauto).
         pose proof (seg_instr _ _ _ Si) as Hci.
-        pose proof (@ex_set_global F bld P reenter cap calls0 [] None [] _ id [] (to_vm v) gv Hci Hid) as Hset.
+        pose proof (@ex_set_global F bld P cap calls0 [] None [] _ id [] (to_vm v) gv Hci Hid) as Hset.
         assert (Hrel' : grel (RefSem.set_assoc name v gr) (gset gv id (to_vm v))) by (apply grel_set; auto).
         assert (Hsimp' : gsimple (RefSem.set_assoc name v gr)) by (apply set_assoc_simple; auto).
         pose proof (IH Hcr Hdr ((pre ++ code_expr T c ++ [ISetGlobalVar id])) _ _ Sr Hnr Hrel' Hsimp') as Hrest.
@@ -379,7 +378,7 @@ Proof.
   assert (Hrel0 : grel T names [] []).
   { intros x _. unfold gread. cbn [RefSem.assoc option_map].
     destruct (nm_find (handle_of_bytes x) T) as [id|]; [|reflexivity]. destruct (N.to_nat id); reflexivity. }
-  pose proof (cards_sim F bld P re T names Tlt Tinj Hinj cards Hcards Hdepth [] [] [] Hseg Hnm Hrel0 (Forall_nil _)) as Hsim.
+  pose proof (cards_sim F bld P T names Tlt Tinj Hinj cards Hcards Hdepth [] [] [] Hseg Hnm Hrel0 (Forall_nil _)) as Hsim.
   unfold cards_sim_res in Hsim. rewrite Hrun in Hsim. destruct Hsim as [_ Hsim].
   assert (Hread : forall s' gv', st_globals s' = gv' -> grel T names g gv' ->
             forall x, no_collision names x ->
@@ -390,7 +389,7 @@ Proof.
   destruct (RefSem.ob_kind o) as [|k] eqn:Ek.
   - (* all cards ran *)
     destruct Hsim as (gv' & Hsteps & Hrel). fold n in Hsteps.
-    destruct (loop_steps Hsteps (budget - n) HS2) as (s' & HS' & El); [cbn [fst snd]; lia|].
+    destruct (loop_steps re Hsteps (budget - n) HS2) as (s' & HS' & El); [cbn [fst snd]; lia|].
     cbn [fst snd] in HS', El. replace (n + (budget - n))%nat with budget in El by lia.
     assert (Hex : code_at P (bytes (code_main T cards)) IExit) by (eapply code_at_encode; exact Hcode).
     replace (budget - n)%nat with (S (budget - n - 1)) in El by lia.
@@ -401,10 +400,10 @@ Proof.
   - (* a global that was never assigned was read *)
     destruct Hkind as [Hk|Hk]; [discriminate|]. injection Hk as ->.
     destruct Hsim as (k & c1 & nm & Hk & Hsteps & Herr & Hrel).
-    destruct (loop_steps Hsteps (budget - k) HS2) as (s' & HS' & El); [cbn [fst snd]; fold n in Hk; lia|].
+    destruct (loop_steps re Hsteps (budget - k) HS2) as (s' & HS' & El); [cbn [fst snd]; fold n in Hk; lia|].
     cbn [fst snd] in El. replace (k + (budget - k))%nat with budget in El by (fold n in Hk; lia).
     replace (budget - k)%nat with (S (budget - k - 1)) in El by (fold n in Hk; lia).
-    destruct (@loop_err F bld P re _ _ _ _ _ (budget - k - 1) c1 _ s' _ Herr HS') as (s'' & Eerr & Hg''); [fold n in Hk; lia|].
+    destruct (@loop_err F bld P _ _ _ _ _ re (budget - k - 1) c1 _ s' _ Herr HS') as (s'' & Eerr & Hg''); [fold n in Hk; lia|].
     rewrite Eerr in El.
     rewrite El. cbn [finish outcome_of fst snd vm_kind kind_of_err]. split; [reflexivity|].
     eapply Hread; eauto.
